@@ -136,9 +136,8 @@ func (gj *resultGroupJob[T, R]) Close() error {
 
 	gj.ack()
 	gj.changeStatus(closed)
-	gj.wgc.Done()
-
-	if gj.wgc.Count() == 0 {
+	// only the member whose own decrement reached zero closes the stream
+	if gj.wgc.Done() {
 		gj.Response.Close()
 	}
 
@@ -214,9 +213,8 @@ func (gj *errorGroupJob[T]) Close() error {
 
 	gj.ack()
 	gj.changeStatus(closed)
-	gj.wgc.Done()
-
-	if gj.wgc.Count() == 0 {
+	// only the member whose own decrement reached zero closes the stream
+	if gj.wgc.Done() {
 		gj.Response.Close()
 	}
 
